@@ -1,15 +1,23 @@
 """C17 — DFE integration is the documented quadrature of a schedule-independent cache.
 
 T : tools/gen_DFE.py regenerates the assembly lines of Cache1D.integrate*, Cache2D.integrate*, the mixtures,
-    Vourlaki_mixture, the job-split test and the merge cell rule (Generated/DFE.lean); Props/C17.lean is about them.
+    Vourlaki_mixture, the job-split test and the merge cell rule (Generated/DFE.lean); tools/gen_PDFs.py the loop extents,
+    flat index expression, work-array extents, parameter-count dispatch and Lanczos coefficients of dadi/DFE/PDFs.c, the
+    argument binding of the Cython wrapper and the dispatch of the Python reference formulas (Generated/PDFs.lean, run
+    by the driver); tools/gen_PDFsReal.py the per-cell real-valued expressions of both sides (PDFs.c and PDFs.py) and
+    the univariate pdfs (Generated/PDFsReal.lean).  Props/C17.lean is about them.
 K : the real methods (dadi rebuilt from the working tree, compiled PDFs included) vs the exact-rational Lean model
-    (Model/DFE.lean through Driver/DFE.lean).  pdf values, quad/dblquad results (spied from the implementation's own
-    calls and classified by their bounds) and square roots are passed to the model as numbers.
+    (Model/DFE.lean, Model/PDFs.lean through Driver/DFE.lean).  pdf values, quad/dblquad results (spied from the
+    implementation's own calls and classified by their bounds) and square roots are passed to the model as numbers.
+    Whole mixtures on real caches with both components computed by the model; compiled pdfs: output layout on
+    rectangular grids, parameter-count dispatch (lengths 1..7, both sides), Lanczos series (exact in the model).
 L3: the property statement evaluated directly on the real code with numpy/scipy, independent of the model:
     nine-region quadrature written out with explicit loops, linearity in theta, selection-neutral spectra and the
-    total weight (region masses from normal / gamma cdfs), point-mass and mixture weights from the docstrings,
+    total weight (region masses from normal / gamma cdfs) for integrate, integrate_point_pos (1-3 point masses) and all
+    three mixtures, point-mass and mixture weights from the docstrings,
     single vs multi-process vs split+merge caches, worker faults, every subset of missing / duplicated jobs,
-    compiled bivariate pdfs vs their formulas (contiguous and strided arguments)."""
+    compiled bivariate pdfs vs their formulas (contiguous and strided arguments) and vs the library's own reference
+    functions on square, rectangular and degenerate grids for every accepted parameter-vector length."""
 import os, sys, math, itertools, contextlib, copy
 from fractions import Fraction
 import numpy as np
@@ -1455,8 +1463,101 @@ def pdf_mismatch(got, ref):
         e = float('inf')
     return e
 
+def o_pdf_ref(chk, dadi, inp):
+    """the property clause as stated: the compiled density equals the library's own reference formula (`*_py`), for every
+    accepted parameter-vector length and rectangular / degenerate grid shapes"""
+    P = dadi.DFE.PDFs
+    name, params = inp['pdf'], inp['params']
+    f, fpy = getattr(P, name), getattr(P, name + '_py')
+    xx = np.array(inp['xx'], dtype=float); yy = np.array(inp['yy'], dtype=float)
+    chk.l3(('pdf_ref', name, len(params), len(xx), len(yy)))
+    chk.stat('pdf_ref:%s:%s' % (name, 'square' if len(xx) == len(yy) else 'wide' if len(xx) < len(yy) else 'tall'))
+    try:
+        ref = np.asarray(fpy(xx, yy, params), dtype=float)
+    except Exception as e:
+        chk.notes.append('o_pdf_ref: reference raised %r on %r' % (e, inp)); return
+    try:
+        got = np.asarray(f(xx, yy, params), dtype=float)
+    except Exception as e:
+        chk.fail('PDFs.%s:raises:%s' % (name, type(e).__name__), '%s: %s' % (type(e).__name__, e), inp); return
+    if got.shape != ref.shape:
+        chk.fail('PDFs.%s:shape' % name, 'compiled result has shape %r, the reference %r' % (got.shape, ref.shape), inp); return
+    e = pdf_mismatch(np.atleast_2d(got), np.atleast_2d(ref))
+    if e > (1e-10 if name == 'biv_lognormal' else 1e-9):
+        chk.fail('PDFs.%s:%s' % (name, 'formula' if len(xx) == len(yy) else 'rectangular-grid'),
+                 'compiled %s differs from %s_py (max rel err %.3g) on a %d x %d grid' % (name, name, e, len(xx), len(yy)),
+                 dict(inp, got=small(got), expected=small(ref)))
+
+def o_pp1_nosel(chk, dadi, inp):
+    """selection has no effect (all cached spectra equal): integrate_point_pos with any number of point masses returns
+    theta * S0 * ((1 - sum ppos) * W + sum ppos), W the total weight of the continuous part"""
+    c = build_cache(dadi, inp['cache']); sel = pdf_by_name(dadi, inp['pdf']); theta = inp['theta']
+    pdfp = inp['pdf_params']; pp = inp['point_masses']
+    ng = np.asarray(c.neg_gammas, dtype=float)
+    S0 = data_of(neutral1([inp['cache']['p0']], inp['cache']['ns'], None))
+    W = my_trapz(np.asarray(sel(-ng, pdfp), dtype=float), ng) + masses_1d(inp['pdf'], pdfp, 0.0, -ng[-1]) + masses_1d(inp['pdf'], pdfp, -ng[0], np.inf)
+    sp = sum(p for p, _ in pp)
+    chk.l3(('pp1_nosel', inp['pdf'], len(pp)))
+    chk.stat('pp1_nosel:Npos=%d' % len(pp))
+    try:
+        got = data_of(c.integrate_point_pos(list(pdfp) + [v for pr in pp for v in pr], None, sel, theta, Npos=len(pp)))
+    except Exception as e:
+        chk.fail('Cache1D.integrate_point_pos:raises:%s' % type(e).__name__, '%s: %s' % (type(e).__name__, e), inp); return
+    Wtot = (1 - sp) * W + sp
+    e = masserr(got, theta * Wtot * S0, abs(theta) * float(np.max(np.abs(S0))))
+    if e > QTOL1:
+        chk.fail('Cache1D.integrate_point_pos:no-selection', 'with selection-neutral spectra and %d point masses the result is theta*S0*%.5f, '
+                 'expected total weight (1-sum ppos)*W + sum ppos = %.5f' % (len(pp), float(np.mean(got / (theta * S0))), Wtot),
+                 dict(inp, got=small(got), expected=small(theta * Wtot * S0), total_weight=Wtot))
+
+def o_mix_nosel(chk, dadi, inp):
+    """selection has no effect: every mixture returns theta * S0 * (its total weight), the total weight being the stated
+    combination of the components' total weights with (1 - p2d, p2d), the point-mass proportions and the quadrant weights"""
+    s1 = build_cache(dadi, inp['cache1']); s2 = build_cache(dadi, inp['cache2'])
+    sd1 = pdf_by_name(dadi, inp['pdf1']); sd2 = pdf_by_name(dadi, inp['pdf2'])
+    kind = inp['kind']; sh = inp['shared']; theta = inp['theta']; rho = inp['rho']; p2d = inp['p2d']
+    M = dadi.DFE.Cache2D_mod
+    ng1 = np.asarray(s1.neg_gammas, dtype=float); ng2 = np.asarray(s2.neg_gammas, dtype=float); n2 = len(ng2)
+    S0 = data_of(neutral2([inp['cache2']['p0']], inp['cache2']['ns'], None))
+    biv = list(sh) + [rho]          # what the mixtures hand to the 2-D component (biv_ind_gamma ignores a third entry)
+    Mr = well_conditioned(chk, inp['pdf2'], biv, ng2, sd2, 'mix_nosel')
+    if Mr is None:
+        return
+    w2 = np.asarray(sd2(-ng2, -ng2, np.array(biv)), dtype=float).reshape(n2, n2)
+    W2, _ = nine_regions(ng2, np.ones((n2, n2)), w2, Mr)
+    W1 = my_trapz(np.asarray(sd1(-ng1, sh), dtype=float), ng1) + masses_1d(inp['pdf1'], sh, 0.0, -ng1[-1]) + masses_1d(inp['pdf1'], sh, -ng1[0], np.inf)
+    if kind == 'mix':
+        params = list(sh) + [rho, p2d]
+        Wtot = (1 - p2d) * W1 + p2d * W2
+        call = lambda: M.mixture(params, None, s1, s2, sd1, sd2, theta, None)
+    else:
+        if kind == 'mixsym':
+            pp, g = inp['point'][:2]; p1, g1, p2, g2 = pp, g, pp, g
+            params = list(sh) + [rho, pp, g, p2d]
+            call = lambda: M.mixture_symmetric_point_pos(params, None, s1, s2, sd1, sd2, theta)
+        else:
+            p1, g1, p2, g2 = inp['point']
+            params = list(sh) + [rho, p1, g1, p2, g2, p2d]
+            call = lambda: M.mixture_point_pos(params, None, s1, s2, sd1, sd2, theta)
+        a, b, cc, d = quadrant_weights(p1, p2, rho)
+        M2 = my_trapz([my_trapz(w2[:, j], ng2) for j in range(n2)], ng2)       # interior mass of the marginal of gamma2
+        M1 = my_trapz([my_trapz(w2[i, :], ng2) for i in range(n2)], ng2)
+        Wtot = (1 - p2d) * ((1 - p1) * W1 + p1) + p2d * (a + b * M2 + cc * M1 + d * W2)
+    chk.l3(('mix_nosel', kind, inp['pdf2'], p2d in (0.0, 1.0)))
+    chk.stat('mix_nosel:%s' % kind)
+    fname = MIX[kind][0]
+    try:
+        got = data_of(call())
+    except Exception as e:
+        chk.fail('%s:raises:%s' % (fname, type(e).__name__), 'DFE.%s raised %s: %s' % (fname, type(e).__name__, e), dict(inp, params=params)); return
+    e = masserr(got, theta * Wtot * S0, abs(theta) * float(np.max(np.abs(S0))))
+    if e > QTOL2:
+        chk.fail('%s:no-selection' % fname, 'with selection-neutral spectra DFE.%s returns theta*S0*%.5f; the stated combination of the total weights is %.5f'
+                 % (fname, float(np.mean(got / (theta * S0))), Wtot), dict(inp, params=params, got=small(got), expected=small(theta * Wtot * S0), total_weight=Wtot))
+
 ORACLES = dict(int1d=o_int1d, nosel1d=o_nosel1d, pp1=o_pp1, int2d=o_int2d, nosel2d=o_nosel2d, pp2=o_pp2, mix=o_mix, vourlaki=o_vourlaki,
-               procs=o_procs, fault=o_fault, split=o_split, subsets=o_subsets, pdf=o_pdf)
+               procs=o_procs, fault=o_fault, split=o_split, subsets=o_subsets, pdf=o_pdf,
+               pdf_ref=o_pdf_ref, pp1_nosel=o_pp1_nosel, mix_nosel=o_mix_nosel)
 
 def ensure_dfe(dadi):
     import importlib
@@ -1516,10 +1617,11 @@ def run(chk, ctx):
                 'hundreds of simulated completion orders; split_jobs 1-6; all 81 multiplicity patterns of 4 jobs, with and without a tampered duplicate; '
                 'a fault at every gamma position. Non-trivial = distinct (oracle, pdf, size, edge-case flags).')
     chk.unproved = [
-        '"up to quadrature error": accuracy of scipy quad/dblquad and of the trapezoid rule (total weight = 1) is checked numerically only '
-        '(tail / region masses vs distribution functions, |W-1| on fine grids)',
-        'compiled bivariate pdfs (PDFs.c incl. the Lanczos gamma) equal their formulas: numerical comparison on log grids, rel 1e-10 / 1e-9',
-        'the univariate pdfs are scipy.stats calls (not modelled)',
+        '"up to quadrature error": the size of the quadrature errors themselves (scipy quad/dblquad, trapezoid rule) is checked numerically only '
+        '(tail / region masses vs distribution functions, |W-1| on fine grids); that W - total mass is exactly the sum of the per-region errors is proved',
+        'floating-point evaluation of the compiled pdfs and the accuracy of the Lanczos gamma_func (the gamma theorems assume gamma_func(alpha) = Gamma(alpha)): '
+        'numerical comparison on log grids, rel 1e-10 / 1e-9; the translated Lanczos coefficients are tied to the compiled gamma_func by K at 1e-11',
+        'scipy.stats densities are taken from their documentation (fixed table in tools/gen_PDFsReal.py)',
         'operating-system scheduling itself: the theorem covers every permutation of the results list; real pools are sampled, simulated orders are exhaustive in kind',
         'numpy.trapz / boolean-mask indexing / np.squeeze are tied by correspondence (K), not translated',
     ]
@@ -1582,6 +1684,29 @@ def run(chk, ctx):
             params = [r3(rng.uniform(0.3, 2)), r3(10 ** rng.uniform(0, 2)), r3(rng.uniform(0, 0.3)), gp if rng.random() < 0.9 else 9.99,
                       r3(rng.uniform(0, 1)), r3(rng.uniform(0, 1))]
             k_vourlaki(chk, drv, dadi, s1, s2, params, rnd_theta(rng))
+        # whole mixtures on real caches: both components computed by the model
+        for rep in range(2 if not thorough else 10):
+            gp = r3(rng.uniform(0.5, 6)); gp2 = r3(rng.uniform(0.5, 6))
+            sp1 = rnd_spec(rng, '1d', 'demo1', extra=[gp])
+            sp2 = rnd_spec(rng, '2d', 'demo2', extra=[gp, gp2], n=int(rng.integers(2, 4))); sp2['ns'] = list(sp1['ns'])
+            s1 = build_cache(dadi, sp1); s2 = build_cache(dadi, sp2)
+            if rep % 2 == 0: n1, n2, shared = 'lognormal', 'biv_lognormal', [r3(rng.uniform(-1, 4)), r3(rng.uniform(0.5, 2))]
+            else: n1, n2, shared = 'gamma', 'biv_ind_gamma', [r3(rng.uniform(0.4, 2.5)), r3(10 ** rng.uniform(0, 2))]
+            sel1 = pdf_by_name(dadi, n1); sel2 = pdf_by_name(dadi, n2)
+            rho = float(rng.choice([0.0, r3(rng.uniform(-0.9, 0.9))])); p2d = float(rng.choice([0.0, 1.0, r3(rng.uniform(0, 1))]))
+            k_mixfull(chk, drv, dadi, s1, s2, n1, sel1, n2, sel2, shared, rho, p2d, rnd_theta(rng), bool(rep % 4 < 2 or thorough and rng.random() < 0.5))
+            pt = (r3(rng.uniform(0, 0.4)), gp if rng.random() < 0.9 else 7.77, r3(rng.uniform(0, 0.4)), gp2)
+            k_mixptfull(chk, drv, dadi, s1, s2, n1, sel1, n2, sel2, shared, rho, pt, p2d, rnd_theta(rng), False)
+            k_mixptfull(chk, drv, dadi, s1, s2, n1, sel1, n2, sel2, shared, rho, pt, p2d, rnd_theta(rng), True)
+        # compiled pdfs: output layout on rectangular grids, parameter-count dispatch, Lanczos series
+        for (xs, ys) in [(1, 1), (1, 4), (4, 1), (3, 5), (5, 3), (4, 4), (2, 7)] + ([(7, 2), (6, 6), (1, 9), (9, 1)] if thorough else []):
+            k_pdf_layout(chk, drv, dadi, 'ln', xs, ys, [0.4, -0.3, 0.7, 1.1, float(r3(rng.uniform(-0.8, 0.8)))])
+            k_pdf_layout(chk, drv, dadi, 'g', xs, ys, [float(r3(rng.uniform(0.4, 2.5))), 1.7, 3.0, float(r3(rng.uniform(0.5, 5)))])
+        for L in range(1, 8):
+            k_pdf_dispatch(chk, drv, dadi, 'ln', L, rng)
+            k_pdf_dispatch(chk, drv, dadi, 'g', L, rng)
+        for alpha in [0.2, 0.45, 0.5, 0.8, 1.0, 1.5, 3.7, 12.3] + [float(r3(10 ** rng.uniform(-1.2, 1.4))) for _ in range(4 if not thorough else 40)]:
+            k_lanczos(chk, drv, dadi, alpha)
         # construction under simulated schedules
         for rep in range(25 if not thorough else 150):
             dim = 1 + rep % 2
@@ -1690,6 +1815,28 @@ def run(chk, ctx):
     spd1 = spec_cache('1d', 'demo1', 1.0, [2, 2], (0.01, 50.0), 5, [1.2]); spd2 = spec_cache('2d', 'demo2', 1.0, [2, 2], (0.01, 50.0), 4, [1.2])
     oracle(chk, dadi, 'mix', dict(cache1=spd1, cache2=spd2, pdf1='lognormal', pdf2='biv_lognormal', shared=[0.5, 0.3], rho=0.0, p2d=0.2,
                                   kind='mixsym', theta=1.0, point=[0.2, 1.2]))
+    # selection has no effect: point masses (any number) and all three mixtures return theta * S0 * (stated total weight)
+    for rep in range(3 if not thorough else 12):
+        g1, g2 = r3(rng.uniform(0.5, 6)), r3(rng.uniform(0.5, 6))
+        spn = spec_cache('1d', 'neutral1', r3(rng.uniform(0.5, 2.0)), [1, 2], (r3(10 ** rng.uniform(-2, -0.5)), r3(10 ** rng.uniform(0.7, 2.2))),
+                         int(rng.integers(3, 8)), [g1, g2])
+        name, params = pdf1_specs(rng)[rep % 4]
+        for npos in (1, 2, 3):
+            pp = [[r3(rng.uniform(0.01, 0.3)), float(rng.choice([g1, g2]))] for _ in range(npos)]
+            oracle(chk, dadi, 'pp1_nosel', dict(cache=spn, pdf=name, pdf_params=params, point_masses=pp, theta=rnd_theta(rng)))
+    for rep in range(2 if not thorough else 10):
+        g1, g2 = r3(rng.uniform(0.5, 6)), r3(rng.uniform(0.5, 6))
+        bounds = (r3(10 ** rng.uniform(-2, -0.5)), r3(10 ** rng.uniform(0.7, 2.2)))
+        p0 = r3(rng.uniform(0.5, 2.0))
+        c1 = spec_cache('1d', 'neutral1', p0, [1, 2], bounds, int(rng.integers(3, 7)), [g1])
+        c2 = spec_cache('2d', 'neutral2', p0, [1, 2], bounds, int(rng.integers(2, 5)), [g1, g2])
+        if rep % 2 == 0: n1, n2, shared = 'lognormal', 'biv_lognormal', [r3(rng.uniform(-1, 3)), r3(rng.uniform(0.5, 2))]
+        else: n1, n2, shared = 'gamma', 'biv_ind_gamma', [r3(rng.uniform(0.4, 2.5)), r3(10 ** rng.uniform(-0.5, 1.5))]
+        rho = float(rng.choice([0.0, r3(rng.uniform(-0.9, 0.9))])); p2d = float(rng.choice([0.0, 1.0, r3(rng.uniform(0, 1))]))
+        base = dict(cache1=c1, cache2=c2, pdf1=n1, pdf2=n2, shared=shared, rho=rho, p2d=p2d)
+        oracle(chk, dadi, 'mix_nosel', dict(base, kind='mix', theta=rnd_theta(rng)))
+        oracle(chk, dadi, 'mix_nosel', dict(base, kind='mixsym', theta=rnd_theta(rng), point=[r3(rng.uniform(0, 0.4)), g1]))
+        oracle(chk, dadi, 'mix_nosel', dict(base, kind='mixpt', theta=rnd_theta(rng), point=[r3(rng.uniform(0, 0.4)), g1, r3(rng.uniform(0, 0.4)), g2]))
     # caches: processes, faults, split + merge, subsets
     cpus_l = [2, 3, 4] if not thorough else list(range(2, 17))
     for cpus in cpus_l:
@@ -1731,6 +1878,17 @@ def run(chk, ctx):
         layout = ['contiguous', 'contiguous', 'strided', 'reversed', 'list', 'scalar', 'int'][rep % 7]
         oracle(chk, dadi, 'pdf', dict(pdf='biv_lognormal', params=[float(v) for v in pl[rep % 2]], xx=xx, yy=yy, layout=layout))
         oracle(chk, dadi, 'pdf', dict(pdf='biv_ind_gamma', params=[float(v) for v in pg[rep % 4]], xx=xx, yy=yy, layout=layout))
+
+    # the clause as stated: compiled == the library's reference formula, every accepted length, rectangular / degenerate grids
+    shapes = [(1, 1), (1, 5), (5, 1), (3, 5), (5, 3), (2, 7), (4, 4)] + ([(7, 2), (8, 3), (1, 9), (6, 6)] if thorough else [])
+    for (nx, ny) in shapes:
+        xx = np.sort(10 ** rng.uniform(-3, 3, size=nx)).tolist(); yy = np.sort(10 ** rng.uniform(-3, 3, size=ny)).tolist()
+        rho = float(rng.choice([0.0, rng.uniform(-0.99, 0.99)]))
+        for params in ([rng.uniform(-3, 6), rng.uniform(0.2, 3), rho], [rng.uniform(-3, 6), rng.uniform(-3, 6), rng.uniform(0.2, 3), rng.uniform(0.2, 3), rho]):
+            oracle(chk, dadi, 'pdf_ref', dict(pdf='biv_lognormal', params=[float(v) for v in params], xx=xx, yy=yy))
+        a1, a2, b1, b2 = 10 ** rng.uniform(-1, 1.2), 10 ** rng.uniform(-1, 1.2), 10 ** rng.uniform(-1, 3), 10 ** rng.uniform(-1, 3)
+        for params in ([a1, b1], [a1, b1, 0.3], [a1, a2, b1, b2], [a1, a2, b1, b2, -0.2]):
+            oracle(chk, dadi, 'pdf_ref', dict(pdf='biv_ind_gamma', params=[float(v) for v in params], xx=xx, yy=yy))
 
 def replay(chk, ctx, data):
     inp = data.get('input') or {}
